@@ -1,9 +1,14 @@
 """C04 -- ffi.cast to integer and character types follows C conversion rules.
 
 Theorems (lean/CffiVerif/Props/C04.lean) over the model of
-cast_to_integer_or_char (Model/CInt.lean): cast_eq_wrap, cast_in_range,
-cast_congr, wrap_unique, cast_preserves_representable, cast_bool,
-floatTrunc_toward_zero, ptr_intptr_ptr, ptr_uintptr_ptr, cast_rejects_non_single.
+cast_to_integer_or_char (Model/IntCast.lean): generated_shape,
+generated_write_is_truncation, generated_read_is_readInt, cast_eq_wrap,
+cast_in_range, cast_congr, wrap_unique, cast_preserves_representable, cast_bool,
+floatTrunc_toward_zero, cast_nonfinite, cast_object_protocol,
+cast_rejects_non_single, toptr_of_int, ptr_int_ptr.
+
+The arithmetic of the model is regenerated from the C source (translate/castexprs.py ->
+Generated/CastExprs.lean): a change of one of those expressions breaks the proof stage.
 
 Tie to the code, per (type, source):
   * oracle independent of the model: Python arithmetic (`int(x)` of a float is
@@ -14,11 +19,17 @@ Tie to the code, per (type, source):
 """
 import ctypes
 import math
+import warnings
 import os
 import sys
 
+import struct
+
 import common
 from common import InfraError
+
+sys.path.insert(0, os.path.join(common.VERIF, "translate"))
+import castexprs  # noqa: E402
 
 MANIFEST = {
     "text": "Kernel-checked theorems, for every integer or character primitive (1/2/4/8 bytes; signed, unsigned, _Bool, "
@@ -26,15 +37,21 @@ MANIFEST = {
             "one byte, one code point, any 64-bit address): the model of cast_to_integer_or_char never fails and "
             "int(ffi.cast(T, x)) is the unique value of T's range congruent to x truncated toward zero modulo "
             "2^(8*sizeof T) (hence x itself whenever representable); for _Bool it is 0/1 by non-zeroness of x itself; "
-            "pointer -> intptr_t/uintptr_t -> pointer is the identity on addresses; non-single bytes/str are a "
-            "TypeError.  The model is tied to the code by casting on the real implementation against a Python "
-            "arithmetic oracle, a gcc-evaluated (T)x table, and the Lean driver.",
+            "pointer -> intptr_t/uintptr_t -> pointer is the identity on addresses (through a Python int or directly "
+            "through the cdata); non-single bytes/str are a TypeError; the same closed form covers integer / character "
+            "/ float cdata sources and objects with __int__; non-finite floats raise OverflowError / ValueError (1 to "
+            "_Bool); __index__ is never consulted, __float__ only counts for _Bool.  All arithmetic of the model is "
+            "regenerated from the C source on every run.  The model is tied to the code by casting on the real "
+            "implementation against a Python arithmetic oracle, a gcc-evaluated (T)x table, and the Lean driver.",
     "note": "Trusted: Lean kernel; CPython's PyLong_AsUnsignedLongLongMask / float.__int__ (modelled as exact); "
-            "LP64 little endian.  The model is hand-written from cast_to_integer_or_char (no translator): a change "
-            "of the code shows up as a correspondence disagreement / oracle failure, not as a failing proof.  "
-            "Sources that are cdata integers/floats, objects with __int__, inf/nan are outside the statement.",
-    "technique": "Lean 4 proof (case analysis over widths/kinds, omega) + differential correspondence with a "
-                 "Python-arithmetic and gcc oracle",
+            "LP64 little endian; the C-expression translator (translate/castexprs.py).  The expressions of the cast "
+            "(value assignments, !!value, write/read truncation and widening, character reads of cdata_int, guards "
+            "and CPython calls of _my_PyLong_AsUnsignedLongLong / _my_PyObject_AsBool, branch order) are regenerated "
+            "from the source; the control flow between them is hand-written.  Sources outside the statement (integer "
+            "/ char / float cdata, objects with __int__ / __float__ / __index__, inf/nan, non-numbers) are modelled "
+            "and compared with the implementation through the driver only (no oracle of their own).",
+    "technique": "Lean 4 proof (case analysis over widths/kinds, omega, BitVec lemmas over regenerated expressions) + "
+                 "translator + differential correspondence with a Python-arithmetic and gcc oracle",
 }
 
 RULE = ("per type: ints {+-2^k + d : k = 0..70, d = -3..3} and random 1..300-bit ints; floats +-2^k, +-(2^k +- 0.5), "
@@ -113,7 +130,7 @@ def build(ctx):
     import cffi
     w = World()
     ffi = cffi.FFI()
-    ffi.cdef(ENUM_DECLS)
+    ffi.cdef(ENUM_DECLS + "int getpid(void);\n")
     w.ffi = ffi
     names = INT_TYPES + CHAR_TYPES + ENUM_TYPES
     # gcc oracle: sizeof(T), signedness of T, (T)x for x a long long / unsigned long long / double
@@ -207,7 +224,7 @@ def sources(w, rng, n_int_rand, n_float_rand):
         out.append(("int", v, v, True, "int %d" % v))
     for x in float_values(rng, n_float_rand):
         m, e = float_me(x)
-        out.append(("float", x, int(x), x != 0.0, "float %d %d" % (m, e)))
+        out.append(("float", x, int(x), x != 0.0, "float fin %d %d" % (m, e)))
     out.append(("bool", True, 1, True, "bool 1"))
     out.append(("bool", False, 0, False, "bool 0"))
     for b in range(256):
@@ -225,6 +242,72 @@ def sources(w, rng, n_int_rand, n_float_rand):
         w.keep.append(p)
         a = ctypes.addressof(ctypes.c_char.from_buffer(ffi.buffer(p)))
         out.append(("ptr", p, a, True, "ptr %d" % a))
+    # a real function-pointer cdata: libc's getpid through dlopen(None); address through ctypes
+    f = ffi.dlopen(None).getpid
+    a = ctypes.cast(ctypes.CDLL(None).getpid, ctypes.c_void_p).value
+    w.keep.append(f)
+    out.append(("ptr", f, a, True, "ptr %d" % a))
+    return out
+
+
+def fwords(x):
+    if x != x:
+        return "nan"
+    if x in (math.inf, -math.inf):
+        return "inf" if x > 0 else "-inf"
+    return "fin %d %d" % float_me(x)
+
+
+def extra_sources(w, rng):
+    """Sources outside the property's statement: [(python object, driver words, label)].  Compared with the
+    model only (what cffi accepts here is part of the model, not of the property)."""
+    ffi = w.ffi
+    out = []
+    for x in (math.inf, -math.inf, math.nan):
+        out.append((x, "float " + fwords(x), "float-nonfinite"))
+    # integer / character cdata
+    by_name = {te.name: te for te in w.types}
+    for sname in ("signed char", "unsigned char", "short", "unsigned int", "long", "unsigned long long", "_Bool",
+                  "int32_t", "size_t", "char", "char16_t", "char32_t", "wchar_t", "enum c04_es32", "enum c04_eu64"):
+        S = by_name[sname]
+        vals = [0, 1, -1, S.lo, S.hi, rng.getrandbits(70), -rng.getrandbits(40)]
+        for v in vals:
+            cd = ffi.cast(sname, v)
+            sv = (1 if v != 0 else 0) if S.is_bool else S.wrap(v)
+            rep = sv.to_bytes(S.size, "little", signed=S.signed)
+            out.append((cd, "cdint %d %s %s" % (S.size, S.kind, rep.hex()), "cdata-int"))
+    # float cdata (a `float` holds the value rounded to binary32)
+    for x in (0.0, -0.0, 0.5, -2.7, 1e10, -1e19, 3.9e9, 1e300, 5e-324, math.inf, -math.inf, math.nan,
+              math.ldexp(rng.random() + 0.5, rng.randint(-20, 80))):
+        for tn in ("double", "long double", "float"):
+            held = x
+            if tn == "float":
+                try:
+                    held = struct.unpack("f", struct.pack("f", x))[0]
+                except OverflowError:
+                    continue
+            out.append((ffi.cast(tn, x), "cdfloat " + fwords(held), "cdata-float"))
+    st = ffi.new("struct { int a; } *")
+    w.keep.append(st)
+    out.append((st[0], "cdother", "cdata-struct"))
+    # instances of Python classes
+    results = {"none": None, "i:0": 0, "i:300": 300, "i:-1": -1, "i:1": True, "i:%d" % (1 << 70): 1 << 70,
+               "f:%d:%d" % float_me(0.5): 0.5, "f:%d:%d" % float_me(0.0): 0.0, "f:%d:%d" % float_me(-7.25): -7.25,
+               "f:inf": math.inf, "f:nan": math.nan, "other": "text"}
+    keys = sorted(results)
+    combos = [(h, i, f) for h in (0, 1) for i in keys for f in ("none", "f:%d:%d" % float_me(0.5),
+                                                                "f:%d:%d" % float_me(0.0), "i:0", "i:300", "other", "f:nan")]
+    for h, i, f in combos:
+        ns = {}
+        if h:
+            ns["__index__"] = lambda self: 5
+        if i != "none":
+            ns["__int__"] = (lambda r: (lambda self: r))(results[i])
+        if f != "none":
+            ns["__float__"] = (lambda r: (lambda self: r))(results[f])
+        out.append((type("C04Obj", (), ns)(), "obj %d %s %s" % (h, i, f), "object"))
+    for o in (None, object(), 1j, [], {}):
+        out.append((o, "nonum", "non-number"))
     return out
 
 
@@ -309,10 +392,32 @@ def explore(ctx, with_model, model_sample, n_int_rand, n_float_rand):
             if with_model:
                 lines.append("cast 8 %s ptr %d" % ("s" if tn == "intptr_t" else "u", trunc))
                 pending.append((dict(case, step="to-int"), int(i)))
-                lines.append("toptr %d" % int(i))
+                lines.append("toptr int %d" % int(i))
                 rt.append((len(lines) - 1, case, a2))
 
-    # error branch (outside the property's statement: correspondence only)
+    # sources outside the property's statement: correspondence only
+    if with_model:
+        extras = extra_sources(w, rng)
+        for te in w.types:
+            for obj, words, label in extras:
+                with warnings.catch_warnings():
+                    warnings.simplefilter("ignore")
+                    got = run_cast(ffi, te, obj)
+                ctx.count("%s:%s" % (label, "ok" if isinstance(got, int) else got))
+                lines.append("cast %d %s %s" % (te.size, te.kind, words))
+                pending.append(({"type": te.name, "source": label, "words": words}, got))
+        # integer cdata -> pointer, directly
+        for kind, obj, trunc, nz, words in srcs:
+            if kind != "ptr":
+                continue
+            for tn, k in (("intptr_t", "s"), ("uintptr_t", "u")):
+                i = ffi.cast(tn, obj)
+                a = ctypes.cast(ctypes.c_void_p(trunc), ctypes.c_void_p).value or 0
+                back = ffi.cast("void *", i)
+                got = int(ffi.cast("uintptr_t", back))
+                rep = (int(i)).to_bytes(8, "little", signed=(k == "s"))
+                lines.append("toptr cdint 8 %s %s" % (k, rep.hex()))
+                rt.append((len(lines) - 1, {"type": tn, "source": "cdata-int -> pointer", "address": trunc}, got))
     if with_model:
         for te in w.types[::7]:
             for obj, words in ((b"", "bytes -"), (b"ab", "bytes 6162"), ("", "str"), ("ab", "str 97 98")):
@@ -342,6 +447,10 @@ def explore(ctx, with_model, model_sample, n_int_rand, n_float_rand):
                 ctx.disagree(case, got, o, "exception type of the cast")
 
 
+def translators(ctx):
+    return [castexprs.translator(ctx)]
+
+
 def correspond(ctx):
     explore(ctx, True, ctx.n(150, 1500), ctx.n(60, 600), ctx.n(60, 600))
 
@@ -366,7 +475,7 @@ def replay(ctx, obj):
     if kind == "int":
         x = int(words[1]); trunc, nz = x, x != 0
     elif kind == "float":
-        x = math.ldexp(float(int(words[1])), int(words[2])); trunc, nz = int(x), x != 0.0
+        x = math.ldexp(float(int(words[2])), int(words[3])); trunc, nz = int(x), x != 0.0
     elif kind == "bool":
         x = words[1] == "1"; trunc, nz = int(x), x
     elif kind == "bytes":
